@@ -1,8 +1,15 @@
 """mirsym: path-enumerating symbolic executor over rustc MIR of the current n2 tree (engine M)."""
+import sys
+
 from .values import *  # noqa
 from .interp import Interp, Failure  # noqa
 from .explore import explore, Exploration  # noqa
 from . import models, mir  # noqa
+
+
+# the interpreter recurses (several Python frames per MIR call; call depth bound 200 in interp.call_fn): CPython 3.11
+# runs Python-to-Python calls without growing the C stack, so a high limit is safe
+sys.setrecursionlimit(max(sys.getrecursionlimit(), 30000))
 
 
 def load(tree, extra_models=()):
